@@ -630,17 +630,4 @@ def guardFree : Nat → List Char → List Arg → Bool
        | .ok _ _ rest args => guardFree fuel rest args
        | _ => true)
 
-/-- the wrappers of sprintf.c on top of `printfN` (the `%n` stores happen inside `__printf`) -/
-def vsnprintfN (mem : List Char) (n : Nat) (format : List Char) (args : List Arg) :
-    Option (List Char × Int × List NStore) :=
-  match printfN format args with
-  | .done out pc st =>
-    match out.foldl snPut (some { mem := mem, cursor := 0, room := if n ≠ 0 then n - 1 else 0 }) with
-    | none => none
-    | some d =>
-      if n ≠ 0 then
-        if d.cursor < d.mem.length then some (d.mem.set d.cursor NUL, pc, st) else none
-      else some (d.mem, pc, st)
-  | _ => none
-
 end Igris.C06
